@@ -23,6 +23,7 @@ from ..observe import canon, feq
 
 ID = 'C11'
 LEVEL = 'exploration'
+REQUIRED_PROBES = ['c11.collapse_applied', 'c11.compared.at', 'c11.compared.as', 'c11.compared.cost', 'c11.compared.weight', 'c11.compared.position', 'c11.fired.at', 'c11.fired.as']
 RUNS = {'quick': 1000, 'thorough': 30000}
 WALL = {'quick': 150, 'thorough': 1800}
 RULE = ("per seed one experiment: (solver) NM/Powell/DE/DE2, dim 2-5, objectives with flat/tied/plateau/slab directions, optional box, "
@@ -735,7 +736,8 @@ class CollapseOracle(object):
             elif kind == 'cost':
                 for p, ivs in col.items():
                     ivs = [tuple(iv) for iv in (ivs if hasattr(ivs[0], '__len__') else [ivs])]
-                    self.relations.append({'kind': 'in', 'i': int(p), 'ivs': [(float(a), float(b)) for a, b in ivs], 'from': n0, 'doc': doc})
+                    self.relations.append({'kind': 'in', 'i': int(p), 'ivs': [(float(a), float(b)) for a, b in ivs], 'from': n0, 'doc': doc,
+                                           'key': key})
         # unrelated conditions keep their masks
         for k_, v in B.items():
             if k_ in out: continue
@@ -757,32 +759,44 @@ class CollapseOracle(object):
         if any(v != v for v in x): return None      # a nan coordinate satisfies no equality; not this property's business
         return self._check_point(x, upto)
 
+    RANK = {'at': 0, 'as': 1, 'in': 2, 'w0': 3, 'ptie': 3}
+    NAMES = {frozenset(('at', 'as')): 'fixed_index_tied', frozenset(('as', 'in')): 'tied_index_bounded',
+             frozenset(('at', 'in')): 'fixed_index_bounded', frozenset(('as',)): 'ties_from_several_collapses'}
+
+    def excuse(self, r, rels):
+        """mystic composes one constraint per applied collapse: the conditions of the newest Collapse() call run first (fixes,
+        then ties, then bounds), those of earlier calls after them.  A relation that is violated is *excused* (-> the name of
+        the listed finding) only if, in that documented order, a relation of another collapse that runs LATER writes one of
+        its parameters; if nothing later touches them the relation had to hold and there is no excuse (-> None)."""
+        vr = {r['i']} | ({r['j']} if 'j' in r else set())
+        kr = (-r['from'], self.RANK[r['kind']])
+        for q in rels:
+            if q is r or q['kind'] in ('w0', 'ptie') or r['kind'] in ('w0', 'ptie'): continue
+            kq = (-q['from'], self.RANK[q['kind']])
+            later = kq > kr or (kq == kr and q['doc'] != r['doc'])
+            if not later: continue
+            wq = {q['i']} | ({q['j']} if 'j' in q else set())
+            if wq & vr:
+                name = self.NAMES.get(frozenset((r['kind'], q['kind'])))
+                if name: return name
+                # bounds collapsed by two DIFFERENT installed CollapseCost conditions (each nests only within its own mask)
+                if r['kind'] == q['kind'] == 'in' and r.get('key') != q.get('key'): return 'bounds_from_several_conditions'
+        return None
+
     def _check_point(self, x, upto):
-        """-> None or (relation, why, conflict).  `conflict` names the case where several applied collapses constrain
-        the same parameter (mystic composes them one after the other and does not reconcile them); None = no such excuse"""
+        """-> None or (relation, why, conflict)"""
         rels = [r for r in self.relations if r['from'] <= upto]
         as_rels = [r for r in rels if r['kind'] == 'as']
         at_rels = [r for r in rels if r['kind'] == 'at']
         in_rels = [r for r in rels if r['kind'] == 'in']
-        find = self._finder(as_rels)
-        tied = set()
-        for r in as_rels: tied.add(r['i']); tied.add(r['j'])
         for r in as_rels:
             if x[r['i']] != x[r['j']]:
-                g = find(r['i'])
-                batch = (r['from'], r['doc'])
-                if any(find(q['i']) == g for q in at_rels): c = 'fixed_index_tied'
-                elif any(find(q['i']) == g for q in in_rels): c = 'tied_index_bounded'
-                elif any(find(q['i']) == g and (q['from'], q['doc']) != batch for q in as_rels): c = 'ties_from_several_collapses'
-                else: c = None
-                return r, 'x[%d]=%r != x[%d]=%r' % (r['i'], x[r['i']], r['j'], x[r['j']]), c
+                return r, 'x[%d]=%r != x[%d]=%r' % (r['i'], x[r['i']], r['j'], x[r['j']]), self.excuse(r, rels)
         for r in in_rels:
             v = x[r['i']]
             if not any(a <= v <= b for a, b in r['ivs']):
-                if r['i'] in tied: c = 'tied_index_bounded'
-                elif any(q['i'] == r['i'] for q in at_rels): c = 'fixed_index_bounded'
-                elif any(1e300 < abs(e) < inf for iv in r['ivs'] for e in iv): c = 'edge_beyond_1e300'
-                else: c = None
+                c = self.excuse(r, rels)
+                if c is None and any(1e300 < abs(e) < inf for iv in r['ivs'] for e in iv): c = 'edge_beyond_1e300'
                 return r, 'x[%d]=%r is outside the collapsed bounds %r' % (r['i'], v, r['ivs']), c
         pt = [r for r in rels if r['kind'] == 'ptie']
         pfind = self._finder(pt)
@@ -804,10 +818,7 @@ class CollapseOracle(object):
             # only one can hold, and which one is the order of the conditions -- either is accepted
             vals = set(q['v'] for q in qs)
             if x[i] not in vals:
-                if i in tied: c = 'fixed_index_tied'
-                elif any(q['i'] == i for q in in_rels): c = 'fixed_index_bounded'
-                else: c = None
-                return qs[-1], 'x[%d]=%r != fixed value %r' % (i, x[i], sorted(vals)), c
+                return qs[-1], 'x[%d]=%r != fixed value %r' % (i, x[i], sorted(vals)), self.excuse(qs[-1], rels)
         return None
 
     def scan(self, h):
